@@ -325,8 +325,8 @@ def rule_alias(rep, d):
                 rep.violates(R, label, "reference parameter consumed before reallocation", where=d.where(bad[0]), detail=bad[1])
             else:
                 rep.holds(R, label, "reference parameter consumed before reallocation", where=d.where(fn), detail="%d paths" % len(paths))
-    if n < 3:
-        raise cj.AnalysisBroken("C11.alias: only %d members with a reference value parameter and a reallocating call found" % n)
+    if n == 0:
+        rep.note("C11.alias: no member takes a value by reference and calls something that may reallocate a storage directly (the floor of the rule decides whether that is an anchor that vanished)")
 
 
 MAKE_DRIVER = '''#include "xtl/xsequence.hpp"
